@@ -278,11 +278,12 @@ fn trial_b(ctx: &Ctx, cs: u64) {
     let mut rng = Rng::new(cs);
     // half of the trials: the idle period is not silent, a connection arrives every 1.6-2 s.
     // Only the worker that serves it starts a new idle period; all the others must still retire.
-    let trickle = rng.chance(1, 2);
+    let trickle = if ctx.replay.is_some() { rng.chance(1, 2) } else { let _ = rng.chance(1, 2); matches!(ctx.shard % 8, 2 | 4) };
     let n = if trickle { *rng.pick(&[16usize, 24]) } else { *rng.pick(&[5usize, 8, 16, 64]) };
     let trickle_period_ms = 1600 + rng.range(0, 400) as u64;
     let t0 = library_thread_count();
-    let unix = rng.chance(1, 3);
+    // the transport is fixed per shard so that every run has both (replays: by seed)
+    let unix = if ctx.replay.is_some() { rng.chance(1, 2) } else { let _ = rng.chance(1, 3); ctx.shard % 4 == 0 };
     let (server, addr) = if unix {
         let dir = std::env::current_exe().unwrap().parent().unwrap().join("socks");
         let _ = std::fs::create_dir_all(&dir);
